@@ -54,16 +54,23 @@ def main() -> int:
     rep.extra["fragment_digests"] = {k: v for k, v in gen.get("digests", {}).items() if k.split(".")[0] in mine}
 
     # 2. build the property module
-    lean_mod = P.LEAN_MODULE
-    targets = [lean_mod] + (["WallGoVerif.Gen.F.Dispatch"] if mine else []) + list(getattr(P, "EXTRA_TARGETS", []))
+    lean_mods = getattr(P, "LEAN_MODULES", None) or [P.LEAN_MODULE]
+    lean_mod = " ".join(lean_mods)
+    targets = list(lean_mods) + (["WallGoVerif.Gen.F.Dispatch"] if mine else []) + list(getattr(P, "EXTRA_TARGETS", []))
     ok, log, errs = C.lake_build(targets)
-    thm_file = C.LEAN / (lean_mod.replace(".", "/") + ".lean")
-    thms = C.theorem_names(thm_file)
+    thm_files = [C.LEAN / (m.replace(".", "/") + ".lean") for m in lean_mods]
+    thm_file = thm_files[0]
+    thms = []
+    thm_mod = {}
+    for m, f in zip(lean_mods, thm_files):
+        for t in C.theorem_names(f):
+            thms.append(t)
+            thm_mod[t] = m
     if not thms:
-        print(f"infrastructure: no theorems found in {thm_file}", file=sys.stderr)
+        print(f"infrastructure: no theorems found in {thm_files}", file=sys.stderr)
         return 2
     broken_decl = {e["decl"].split(" ", 1)[-1] for e in errs}
-    props_built = ok or not any(e["file"].endswith(thm_file.name) or "Gen/" in e["file"] or "Lemmas/" in e["file"] for e in errs)
+    props_built = ok or not any(any(e["file"].endswith(f.name) for f in thm_files) or "Gen/" in e["file"] or "Lemmas/" in e["file"] or "Model/" in e["file"] for e in errs)
     for t in thms:
         short = t.split(".")[-1]
         good = ok or (props_built and short not in broken_decl)
@@ -78,7 +85,9 @@ def main() -> int:
 
     # 3. audit
     if ok:
-        ax = C.audit_axioms(lean_mod, thms)
+        ax = {}
+        for m in lean_mods:
+            ax.update(C.audit_axioms(m, [t for t in thms if thm_mod[t] == m]))
         if "!error" in ax:
             rep.obligation("axiom audit ran", "audit", False, ax["!error"][-300:])
         for t in thms:
@@ -87,7 +96,7 @@ def main() -> int:
                 continue
             extra = set(used) - C.STD_AXIOMS
             rep.obligation(f"axioms {t} ⊆ std", "audit", not extra, ",".join(sorted(extra)))
-        files = [thm_file] + [C.LEAN / (m.replace(".", "/") + ".lean") for m in getattr(P, "LEMMA_MODULES", [])]
+        files = thm_files + [C.LEAN / (m.replace(".", "/") + ".lean") for m in getattr(P, "LEMMA_MODULES", [])]
         hits = C.forbidden_tokens([f for f in files if f.exists()])
         rep.obligation("no sorry/admit/native_decide/axiom in sources", "audit", not hits, "; ".join(hits[:5]))
 
@@ -128,7 +137,7 @@ def main() -> int:
                       {"broken_obligations": broken[:20], "note": "no failing input found on the real code; "
                        "the property is no longer shown to hold"}, found_input=False)
 
-    cmd = f"cd lean && lake build {lean_mod} && #print axioms (audit) ; ./check {prop} --tier {a.tier}"
+    cmd = f"cd lean && lake build {lean_mod} && lake env lean <#print axioms of every theorem> ; ./check {prop} --tier {a.tier}"
     rc = rep.finish(cmd, getattr(P, "RULE", ""))
     n_ok = sum(1 for o in rep.obligations if o["ok"])
     print(f"[{prop}] tier={a.tier} seed={C.SEED} obligations {n_ok}/{len(rep.obligations)} "
